@@ -1,7 +1,7 @@
 (* Extraction of the decoder model (C06, decoder half of C01).  ExtrOcamlBasic only. *)
 From Coq Require Import ExtrOcamlBasic.
 From Coq Require Import ZArith NArith List Strings.Byte.
-From HV Require Import Lib.Dec Lib.Utf8 Model.Wire Model.WireSem Model.Enc Model.DecAct Model.DecVal.
+From HV Require Import Lib.Dec Lib.Utf8 Model.Wire Model.WireSem Model.Enc Model.DecAct Model.DecVal Model.DecSpec.
 Extraction Language OCaml.
 Separate Extraction
   BinInt.Z.add BinInt.Z.mul BinInt.Z.opp BinInt.Z.div_eucl BinInt.Z.compare BinInt.Z.of_nat BinInt.Z.to_nat
@@ -9,4 +9,4 @@ Separate Extraction
   Byte.of_N Byte.to_N
   Wire.emit Wire.parse_all Wire.tok_ok Wire.wsize
   WireSem.denote_top
-  DecVal.dec_top.
+  DecVal.dec_top DecSpec.representable DecSpec.judge DecSpec.spec_fuel.
